@@ -272,3 +272,23 @@ Qed.
 
 Theorem bool_roundtrip b : bool_sql2py (bool_py2sql b) = b.
 Proof. destruct b; reflexivity. Qed.
+
+(* ------------------------------------------------------------------------------------------------ witnesses for the known findings *)
+Lemma date_999_valid : valid_date (mk_date 999 12 31).
+Proof. vm_compute. reflexivity. Qed.
+
+(* date(999, 12, 31) is written as '999-12-31' and comes back as that string *)
+Lemma date_below_1000_refuted :
+  valid_date (mk_date 999 12 31) /\ reload_date (mk_date 999 12 31) = RStr [57; 57; 57; 45; 49; 50; 45; 51; 49].
+Proof. split; [exact date_999_valid | vm_compute; reflexivity]. Qed.
+
+(* Decimal('1.239') in a scale-2 attribute: the writing session keeps 1.239, every later session reads 1.24 *)
+Lemma decimal_unrounded_refuted :
+  dec_reload 2 (1239, -3) = (124, -2) /\ dec_eqb (dec_reload 2 (1239, -3)) (1239, -3) = false.
+Proof. split; vm_compute; reflexivity. Qed.
+
+Example c07_nonvacuous :
+  td_str (mk_td (-1) 86399 999999) = [45; 48; 58; 48; 58; 48; 46; 48; 48; 48; 48; 48; 49]      (* '-0:0:0.000001' *)
+  /\ str2timedelta [45; 48; 58; 48; 58; 48; 46; 48; 48; 48; 48; 48; 49] = Some (mk_td (-1) 86399 999999)
+  /\ reload_datetime 3 (mk_dt (mk_date 2024 2 29) (mk_time 23 59 59 999999)) = RVal (mk_dt (mk_date 2024 2 29) (mk_time 23 59 59 999000)).
+Proof. repeat split; vm_compute; reflexivity. Qed.
